@@ -231,6 +231,11 @@ func RunC04(env *Env, rep *Report) {
 		n, l := scriptLabelFuncs(base.Prog)
 		cases = append(cases, c04FromCase(base, "flow", n, l))
 	}
+	for _, sh := range c01SpelledShapes() {
+		base := c01CaseMode(sh, "spelled/"+ShString(sh), false)
+		n, l := scriptLabelFuncs(base.Prog)
+		cases = append(cases, c04FromCase(base, "flow", n, l))
+	}
 	nmixed := 0
 	for _, mf := range mixedFiles(maxNodes - 1) {
 		mf := mf
@@ -254,6 +259,19 @@ func RunC04(env *Env, rep *Report) {
 				cases = append(cases, c04FromCase(base, "switch", n, l))
 			}
 		}
+	}
+	// one script with more than 64 chunks (sizes where a fixed-width set of
+	// chunk ids would overflow)
+	{
+		var big []swEntry
+		for i := 0; i < 66; i++ {
+			big = append(big, swEntry{Body: "cmd"})
+		}
+		base := c03Case(big, "only")
+		base.Name = "c03/big-66-cases"
+		base.MaxPaths = 4
+		n, l := scriptLabelFuncs(base.Prog)
+		cases = append(cases, c04FromCase(base, "switch", n, l))
 	}
 	nsw := len(cases) - nflow
 	for _, t := range c06Templates {
